@@ -20,6 +20,7 @@ import (
 )
 
 type propDef struct {
+	KernelLevel bool
 	ID        string
 	Instances func(tier string, seed int64) []Instance
 	Tags      []string // build configurations ("" = default)
@@ -64,6 +65,17 @@ func cmdRun(args []string) {
 		qto = 60000
 	}
 	insts := pd.Instances(*tier, seed)
+	var kernelStats map[string]interface{}
+	if pd.KernelLevel {
+		ld0, err := LoadCached("")
+		if err != nil {
+			fmt.Fprintf(os.Stderr, "LOAD FAILED: %v\n", err)
+			os.Exit(2)
+		}
+		var ki []Instance
+		ki, kernelStats = kernelInstances(ld0, *tier)
+		insts = append(insts, ki...)
+	}
 	if *filter != "" {
 		var f []Instance
 		for _, in := range insts {
@@ -93,7 +105,7 @@ func cmdRun(args []string) {
 	var loadS float64
 	skipped := 0
 	for _, tg := range tagKeys {
-		ld, err := Load(tg)
+		ld, err := LoadCached(tg)
 		if err != nil {
 			fmt.Fprintf(os.Stderr, "LOAD FAILED (tags=%q): %v\n", tg, err)
 			os.Exit(2)
@@ -138,6 +150,9 @@ func cmdRun(args []string) {
 
 	ev := buildEvidence(pd, *tier, seed, results, kf)
 	ev.cov["load_s"] = loadS
+	if kernelStats != nil {
+		ev.cov["generated_kernel_coverage"] = kernelStats
+	}
 	ev.cov["instances_skipped_by_budget"] = skipped
 
 	// ---- translator validation (concrete differential against the native build) ----
@@ -276,15 +291,19 @@ func buildEvidence(pd *propDef, tier string, seed int64, results []InstResult, k
 		ev.trivial += r.Trivial
 		ev.solverS += r.SolverS
 		unknownBr += r.UnknownBr
-		byHarness[r.Inst.Harness]++
+		hk := r.Inst.Harness
+		if i := strings.Index(hk, ":"); i > 0 {
+			hk = hk[:i] // all kernels form one harness family
+		}
+		byHarness[hk]++
 		if r.PathLimit {
 			pathLimited++
 		}
-		if reachedBy[r.Inst.Harness] == nil {
-			reachedBy[r.Inst.Harness] = map[string]bool{}
+		if reachedBy[hk] == nil {
+			reachedBy[hk] = map[string]bool{}
 		}
 		for k := range r.Reached {
-			reachedBy[r.Inst.Harness][k] = true
+			reachedBy[hk][k] = true
 		}
 		for _, f := range r.Funcs {
 			funcs[f] = true
@@ -464,8 +483,29 @@ func replayCandidates(prop string, cands []*candidate, kf *KFFile) ([]*candidate
 	}
 	for tg, list := range byTags {
 		var paths []string
+		var rest []*candidate
+		var kld *Loaded
 		for _, c := range list {
+			if strings.HasPrefix(c.harness, "@kernel:") {
+				if kld == nil {
+					var err error
+					if kld, err = Load(tg); err != nil {
+						return nil, err
+					}
+				}
+				ok, why := confirmKernel(kld, c)
+				c.confirmed = ok
+				if !ok && why != "" {
+					fmt.Printf("  kernel replay %s: %s\n", c.harness, why)
+				}
+				continue
+			}
 			paths = append(paths, c.path)
+			rest = append(rest, c)
+		}
+		list = rest
+		if len(paths) == 0 {
+			continue
 		}
 		res, err := nativeBatch(paths, tg)
 		if err != nil {
@@ -593,7 +633,14 @@ func tail(s string, n int) string {
 func validate(pd *propDef, results []InstResult, n int, seed int64) (int, []string, error) {
 	// choose instances: spread over harnesses
 	byH := map[string][]InstResult{}
+	var kernelRes []InstResult
 	for _, r := range results {
+		if strings.HasPrefix(r.Inst.Harness, "@kernel:") {
+			if len(r.NDNames) > 0 && r.Err == "" && len(r.Aborted) == 0 {
+				kernelRes = append(kernelRes, r)
+			}
+			continue
+		}
 		if len(r.NDNames) > 0 && r.Err == "" {
 			byH[r.Inst.Harness] = append(byH[r.Inst.Harness], r)
 		}
@@ -603,10 +650,32 @@ func validate(pd *propDef, results []InstResult, n int, seed int64) (int, []stri
 		hs = append(hs, h)
 	}
 	sort.Strings(hs)
-	if len(hs) == 0 {
-		return 0, nil, nil
-	}
 	rng := rand.New(rand.NewSource(seed * 7919))
+	kvalidated := 0
+	var kmism []string
+	if len(kernelRes) > 0 {
+		kld, err := LoadCached("")
+		if err != nil {
+			return 0, nil, err
+		}
+		for i := 0; i < n && i < len(kernelRes); i++ {
+			r := kernelRes[rng.Intn(len(kernelRes))]
+			m := map[string]string{}
+			for j, name := range r.NDNames {
+				m[name] = randomLiteral(rng, r.NDSorts[j], name)
+			}
+			c := &candidate{inst: r.Inst.Name, harness: r.Inst.Harness, cfg: r.Inst.Cfg, model: m, assert: "kernel-table"}
+			_, why := confirmKernel(kld, c)
+			if strings.HasPrefix(why, "engine/native disagreement") {
+				kmism = append(kmism, r.Inst.Name+": "+why+" model{"+modelString(m)+"}")
+			} else if !strings.HasPrefix(why, "concrete re-execution aborted") {
+				kvalidated++
+			}
+		}
+	}
+	if len(hs) == 0 {
+		return kvalidated, kmism, nil
+	}
 	type vec struct {
 		inst  Instance
 		model map[string]string
@@ -637,8 +706,8 @@ func validate(pd *propDef, results []InstResult, n int, seed int64) (int, []stri
 		tg, _ := vecs[i].inst.Cfg["tags"].(string)
 		byTags[tg] = append(byTags[tg], i)
 	}
-	validated := 0
-	var mism []string
+	validated := kvalidated
+	mism := kmism
 	for tg, idxs := range byTags {
 		var paths []string
 		for _, i := range idxs {
@@ -648,7 +717,7 @@ func validate(pd *propDef, results []InstResult, n int, seed int64) (int, []stri
 		if err != nil {
 			return 0, nil, err
 		}
-		ld, err := Load(tg)
+		ld, err := LoadCached(tg)
 		if err != nil {
 			return 0, nil, err
 		}
